@@ -10,7 +10,7 @@
 (* defective variants (Variant # "ok") must be rejected by TLC.               *)
 EXTENDS NatInt, TLC
 CONSTANT CMax
-CONSTANT Variant      \* "ok" | "trunc_first" (F2) | "halfdown_tie" | "cmp_sign" | "rem_loop" | "div_no_norm" | "gcd_twos" | "far_zero" | "floor_sign" (seed C15-e)
+CONSTANT Variant      \* "ok" | "trunc_first" (F2) | "halfdown_tie" | "cmp_sign" | "rem_loop" | "div_no_norm" | "gcd_twos" | "far_zero" | "floor_sign" (seed C15-e) | "cast_range" (seed C14-e)
 S == INSTANCE FpDec WITH ZAdd <- IAdd, ZSub <- ISub, ZMul <- IMul, ZCmp <- ICmp, ZFloorDivMod <- IFloorDivMod, ZLit <- ILit,
        ZNeg <- INeg, ZAbs <- IAbs, ZSign <- ISign, ZIsEven <- IIsEven, ZMod5Is0 <- IMod5Is0, ZPow10 <- IPow10, ZPow2 <- IPow2,
        ZDigits <- IDigits, MaxFrac <- 2, CoeffBits <- 7, CoeffMax <- 127, CoeffMin <- -128, MaxDigits <- 3
@@ -154,6 +154,15 @@ UnaryRefines ==
   /\ (IF xf = 0 THEN xc ELSE DivCeil(xc, 10^xf)) = S!CeilVal(X)
   /\ (IF xf = 0 THEN xc ELSE TDiv(xc, 10^xf)) = S!TruncVal(X)
   /\ (IF xf = 0 THEN 0 ELSE TRem(xc, 10^xf)) = S!FractCoeff(X)
+
+(* ---- into_int.rs: integral test by remainder, then the range of the target type; from_int.rs: widening ---- *)
+IntTypes == {<<0, 15>>, <<-8, 7>>, <<0, 255>>, <<-128, 127>>}            \* u4 i4 u8 i8 stand for u8 .. u128
+ImplIntoInt(lo, hi) ==
+  LET i == IF xf = 0 \/ xc = 0 THEN <<"ok", xc>> ELSE IF TRem(xc, 10^xf) = 0 THEN <<"ok", TDiv(xc, 10^xf)>> ELSE <<"NotAnIntValue", 0>> IN
+  IF i[1] # "ok" THEN i[1]
+  ELSE IF Variant = "cast_range" /\ hi = 255 THEN "ok"                   \* seed C14-e: a round-trip cast is the identity for the widest unsigned type
+  ELSE IF lo <= i[2] /\ i[2] <= hi THEN "ok" ELSE "ValueOutOfRange"
+IntoIntRefines == \A t \in IntTypes : ImplIntoInt(t[1], t[2]) = S!IntoIntKind(X, t[1], t[2])
 
 (* ---- tightness of the oracle (non-vacuity): where the transcription returns a value, the predicate must   *)
 (* ---- reject the neighbouring coefficients at the same scale, and the failure signal (unless the value is  *)
